@@ -59,8 +59,8 @@ impl Out {
     fn coq(&self) -> String {
         match self {
             Out::Ok { pairs, verifies } => {
-                let ps: Vec<u64> = pairs.iter().map(|(s, i)| s * 4294967296 + i).collect();
-                coq::ol(&[coq::oz(0), coq::oln(&ps), coq::ob(*verifies)])
+                let ps: Vec<String> = pairs.iter().map(|(s, i)| coq::on128(*s as u128 * 4294967296 + *i as u128)).collect();
+                coq::ol(&[coq::oz(0), coq::ol(&ps), coq::ob(*verifies)])
             }
             o => coq::ol(&[coq::oz(o.class() as i128)]),
         }
@@ -87,7 +87,7 @@ fn run_real(env: &Env, items: &[It]) -> Option<Out> {
             let ag = Ag::of_real(&a);
             let mut pairs: Vec<(u64, u64)> =
                 ag.sigs.iter().flat_map(|s| s.idx.iter().map(move |i| (s.slot, *i))).collect();
-            pairs.sort_unstable();
+            pairs.sort_unstable_by_key(|(s, i)| *s as u128 * 4294967296 + *i as u128);
             let verifies = a.verify(&msg, &w.avk, &w.params, None, None).is_ok();
             Out::Ok { pairs, verifies }
         }
@@ -454,8 +454,9 @@ fn main() {
     let mut sink = Sink::new(&args);
     let pool = Pool::new(args.seed, 12);
 
-    let n_worlds = if args.thorough { 120 } else { 14 };
-    let rounds = if args.thorough { 3 } else { 1 };
+    let n_worlds = if args.thorough { 60 } else { 14 };
+    let rounds = 1;
+    let mixtures = if args.thorough { 7 } else { 3 };
 
     // registrations (k = 1 here; the clerk's k is chosen per base below)
     let protos: Vec<(Vec<(usize, u64)>, Parameters)> = (0..n_worlds).map(|i| world_random(&mut rng, i, &pool)).collect();
@@ -493,7 +494,7 @@ fn main() {
             let env = Env { w: &w, msg: msg.clone(), honest: honest.clone() };
             let full: Vec<It> = honest.iter().map(|(slot, (s, ix))| It { sigma: s.clone(), idx: ix.clone(), slot: *slot, tag: "honest".into() }).collect();
 
-            let mut emit = |sink: &mut Sink, kind: &str, label: &str, base_label: &str, items: &[It], base: Option<(&Out, bool)>| -> Option<Out> {
+            let emit = |sink: &mut Sink, kind: &str, label: &str, base_label: &str, items: &[It], base: Option<(&Out, bool)>| -> Option<Out> {
                 let out = run_real(&env, items);
                 if let Some(id) = sink.wants() {
                     let d = desc(&env, items, label, base_label);
@@ -556,7 +557,7 @@ fn main() {
                         emit(&mut sink, kind, &label, bl, &l, Some((&bo, true)));
                     }
                     // mixtures
-                    for _ in 0..3 {
+                    for _ in 0..mixtures {
                         let mut l = b.clone();
                         let cnt = rng.range(2, 5);
                         let mut labels = vec![];
